@@ -125,6 +125,27 @@ def cases(tier, seed):
                     for sup in ([[1, 0, 0], [0, 1, 0], [0, 0, 1]], [[1, 0, 0], [0, 1, 1], [0, 0, 2]]):
                         out.append(dict(sizes=list(sizes), E=E, k=3, support=sup, pattern="dense", fd=fd, mask=None,
                                         hermitian=True, repr=rep, vset=0, total=3))
+    # every symmetric mask on a block of four non-degenerate levels (kept graphs that are regular without being
+    # complete -- rings -- first occur at this size); five-level rings and chains in the thorough tier
+    for sizes, b in (((4,), 0), ((1, 4), 1)):
+        off = lattice.offsets(sizes)
+        for E in lattice.level_patterns(sizes):
+            Eb = [tuple(e) for e in E[off[b]:off[b + 1]]]
+            if len(set(Eb)) < 4:
+                continue
+            for m in lattice.sym_masks(4, Eb, True):
+                for rep in ("dense", "csr") if sizes == (4,) else ("dense",):
+                    out.append(dict(sizes=list(sizes), E=E, k=1, support=[[1]], pattern="dense", fd=None, mask={str(b): m},
+                                    hermitian=True, repr=rep, vset=0, total=3))
+    if tier != "quick":
+        E5 = [[e, 0] for e in lattice.POOL[:5]]
+        for kept in ([(0, 1), (1, 2), (2, 3), (3, 4), (4, 0)], [(0, 1), (1, 2), (2, 3), (3, 4)], [(0, 2), (2, 4), (4, 1), (1, 3), (3, 0)],
+                     [(0, 1), (2, 3)], [(0, 1), (1, 2), (2, 0)]):
+            m = [[0 if (i == j or (i, j) in kept or (j, i) in kept) else 1 for j in range(5)] for i in range(5)]
+            for rep in ("dense", "csr"):
+                for sup in ([[1]], [[1], [2]]):
+                    out.append(dict(sizes=[5], E=E5, k=1, support=sup, pattern="dense", fd=None, mask={"0": m}, hermitian=True,
+                                    repr=rep, vset=0, total=3))
     # masks on two blocks at once (every pair of admissible masks), one and two perturbation orders
     for sizes, bl in (((2, 2), (0, 1)), ((2, 1, 2), (0, 2)), ((3, 2), (0, 1))):
         off = lattice.offsets(sizes)
@@ -139,6 +160,10 @@ def cases(tier, seed):
                                 continue
                             out.append(dict(sizes=list(sizes), E=E, k=1, support=sup, pattern="dense", fd=None,
                                             mask={str(bl[0]): m0, str(bl[1]): m1}, hermitian=True, repr=rep, vset=0, total=3))
+                            if rep == "dense" and sup == [[1]]:
+                                # the same dictionary written in descending key order
+                                out.append(dict(sizes=list(sizes), E=E, k=1, support=sup, pattern="dense", fd=None,
+                                                mask={str(bl[1]): m1, str(bl[0]): m0}, hermitian=True, repr=rep, vset=0, total=3))
     # every admissible symmetric mask on each block in turn
     for st in lattice.mask_structures(3 if tier == "quick" else 4, hermitian=True):
         for rep in ("sympy", "dense", "csr"):
@@ -182,6 +207,11 @@ def cases(tier, seed):
     for st in lattice.structures(3, hermitian=True, ks=(1,), patterns=("dense",),
                                  supports={1: [[(1,)]] if tier == "quick" else [[(1,)], [(1,), (2,)]]}):
         sym.append(dict(st, repr="symbolic", symbolic=True, vset=0, total=3))
+    # the same with plain complex symbols and their conjugates as entries (no explicit imaginary unit anywhere)
+    for st in lattice.structures(3, hermitian=True, ks=(1,), patterns=("dense",), supports={1: [[(1,)]]}):
+        if sum(st["sizes"]) == 3 and len(st["sizes"]) == 1 and tier == "quick":
+            continue
+        sym.append(dict(st, repr="symbolic", symbolic=True, symstyle="complex", vset=0, total=3))
     out = sym + out  # the longest jobs first
     for c in out:
         c["seed"] = seed
